@@ -16,6 +16,7 @@ import MdpaxV.Model.Probs
 import MdpaxV.Model.Store
 import MdpaxV.Model.Ckpt
 import MdpaxV.Model.Crash
+import MdpaxV.Model.Config
 open MdpaxV
 
 /-! parsing / printing -/
@@ -318,6 +319,25 @@ def handle (d : DState) (line : String) : Except String (DState × String) := do
     | "fstrace" => do
         let m ← pNat (← arg a "m"); let saves ← pList pNat (← arg a "saves")
         pure (d, s!"events={fList fEvent (protoTrace m [] saves)}")
+    | "validate" => do
+        let fE : Except CfgErr Unit → String := fun r => match r with
+          | .ok _ => "ok" | .error .typeError => "error=TypeError" | .error .valueError => "error=ValueError"
+        let b : String → Bool := fun k => argD a k "1" = "1"
+        let i : String → String → Except String Int := fun k dflt => pInt (argD a k dflt)
+        let q : String → String → Except String Rat := fun k dflt => pRat (argD a k dflt)
+        match (← arg a "kind") with
+        | "forest" => do pure (d, fE (validateForest { S := ← i "S" "3", p := ← q "p" "1/10" }))
+        | "demoor" => do pure (d, fE (validateDeMoor { maxDemand := ← i "D" "5", mean := ← q "mean" "4", cov := ← q "cov" "1/2", m := ← i "m" "2", L := ← i "L" "1", Q := ← i "Q" "3", issueOk := b "issueok" }))
+        | "hendrix" => do pure (d, fE (validateHendrix { m := ← i "m" "2", meanA := ← q "meana" "5", meanB := ← q "meanb" "5", rho := ← q "rho" "1/2", Qa := ← i "Qa" "3", Qb := ← i "Qb" "3" }))
+        | "mirjalili" => do
+            let nLen ← pNat (argD a "nlen" "7"); let dLen ← pNat (argD a "dlen" "7"); let c0 ← pNat (argD a "c0len" "2"); let c1 ← pNat (argD a "c1len" "2")
+            pure (d, fE (validateMirjalili { maxDemand := ← i "D" "5", nLen, nPos := b "npos", dLen, dPos := b "dpos", m := ← i "m" "3", c0Len := c0, c1Len := c1, Q := ← i "Q" "3" }))
+        | ks => do
+            let k ← match ks with
+              | "vi" => pure SolverKind.vi | "pi" => pure SolverKind.pi | "rvi" => pure SolverKind.rvi
+              | "periodic" => pure SolverKind.periodic | "semi" => pure SolverKind.semi | _ => throw s!"unknown kind {ks}"
+            let c : SolverCfg := { problemOk := b "problemok", gamma := ← q "gamma" "1/2", eps := ← q "eps" "1/1000", maxbs := ← i "maxbs" "64", f := ← i "f" "0", m := ← i "m" "1", verbose := ← i "verbose" "0", testOk := b "testok", period := ← i "period" "2", budget := ← i "budget" "100" }
+            pure (d, fE (outcome k c Route.kwargs) ++ s!" thr={fRat (thresholdOf k c)}")
     | "qrow" => do
         let p ← getP d (← arg a "id")
         let γ ← pRat (← arg a "gamma"); let V ← pList pRat (← arg a "V"); let s ← pNat (← arg a "s")
